@@ -21,12 +21,12 @@ from .common import COQ
 W = 2**256
 H = 2**255
 
-MODEL_FILES = ["C14L/Sem.v", "C14L/LitBase.v", "C14L/GenLit.v", "C14L/Lit.v", "C14L/Rta.v", "C14L/AssertComb.v"]
+MODEL_FILES = ["C14L/Sem.v", "C14L/LitBase.v", "C14L/GenLit.v", "C14L/Lit.v", "C14L/Rta.v", "C14L/AssertComb.v", "C14L/Dload.v", "C14L/PhiElim.v"]
 PROOF_FILES = ["C14L/SemProofs.v", "C14L/Pointwise.v", "C14L/Steps.v", "C14L/LitProofs.v", "C14L/RtaProofs.v",
-               "C14L/AcProofs.v", "C14L/PropsSmall.v"]
+               "C14L/AcProofs.v", "C14L/SegRepl.v", "C14L/AcStep.v", "C14L/PropsSmall.v"]
 MODEL_DEPS = ["C14/RangeBase.v", "C14/GenRange.v", "C14/GenRangeClients.v", "C14/RangeFix.v"]
 IMPORTS = ("From Coq Require Import NArith.\nFrom Verif Require Import Base.PyInt C14.RangeBase C14.RangeFix C14L.Sem C14L.LitBase "
-           "C14L.GenLit C14L.Lit C14L.Rta C14L.AssertComb.\nOpen Scope string_scope.\nOpen Scope Z_scope.\n"
+           "C14L.GenLit C14L.Lit C14L.Rta C14L.AssertComb C14L.Dload.\nOpen Scope string_scope.\nOpen Scope Z_scope.\n"
            "Definition bz (b : bool) : Z := if b then 1 else 0.\n")
 
 
@@ -98,6 +98,8 @@ def coq_check_expr(kind, s):
         m = "match lit_pass f with Ok m => bz (func_eqb m g) | Err _ => 2 end"
     elif kind == "rta":
         m = f"bz (func_eqb (rta_pass f {nv}%N) g)"
+    elif kind == "dl":
+        m = f"bz (func_eqb (dl_pass f {s['ce']}%N {nv}%N) g)"
     else:
         m = f"bz (func_eqb (ac_pass f {s['msgs']} {nv}%N) g)"
     return f"let f : func := {f} in let g : func := {g} in [bz (func_below {nv}%N f); {m}]"
@@ -296,7 +298,9 @@ def real_pair(text, cls_name, prepare=None, want_msgs=False):
     if want_msgs:
         s["msgs"] = msgs_of(ex, {})
     _run(cls_name)(fn)
-    s["after"] = export_pair(ex, fn).func()
+    ex2 = export_pair(ex, fn)
+    s["after"] = ex2.func()
+    s["ce"] = ex2.foreign.get("code_end", 1_000_000 + len(ex2.foreign))
     s["after_text"] = str(fn)
     s["changed"] = s["after"] != before
     return s
@@ -641,6 +645,35 @@ def part_ac(ctx, model_ok):
     return n
 
 
+DL_TEXTS = [
+    "    %p = calldataload 0\n    %v = dload %p\n    mstore 0, %v\n    stop\n",
+    "    %v = dload 64\n    %w = dload 0\n    mstore 0, %v\n    mstore 32, %w\n    stop\n",
+    "    %p = calldataload 0\n    dloadbytes 64, %p, 40\n    dloadbytes 128, 7, 0\n    %v = dload %p\n    mstore 0, %v\n    stop\n",
+    "    %p = calldataload 0\n    %n = calldataload 32\n    dloadbytes %p, %n, %n\n    stop\n",
+    "    %p = calldataload 0\n    jnz %p, @a, @b\na:\n    %v = dload 1\n    mstore 0, %v\n    jmp @b\nb:\n    %w = dload %p\n    mstore 32, %w\n    stop\n",
+    "    %x = add 1, 2\n    mstore 0, %x\n    stop\n",
+]
+
+
+def part_dload_model(ctx, model_ok):
+    """exact tie of the model dl_pass to the real LowerDloadPass"""
+    samples = []
+    for k, body in enumerate(DL_TEXTS):
+        text = f"function d{k} {{\nd{k}:\n{body}}}\n"
+        samples.append(dict(real_pair(text, "LowerDloadPass"), name=f"dload{k}"))
+    bad = 0
+    if model_ok:
+        res = evaluate("dl", samples, "c14l_dlfam")
+        for s, r in zip(samples, res):
+            if r != [1, 1]:
+                bad += 1
+                if bad <= 2:
+                    ctx.violation("correspondence-broken", "dl_pass model differs from the real LowerDloadPass output (" + s["name"] + ")",
+                                  {"venom": s["text"], "after": s["after_text"], "verdict": r})
+    ctx.corr["lower_dload_family"] = {"members": len(samples), "model_mismatches": bad}
+    return len(samples)
+
+
 def part_safe_table(ctx):
     """the model's `ac_safe` against the real `_is_safe_between`, one probe instruction per opcode"""
     from vyper.venom.basicblock import IRInstruction, IRLiteral, IRVariable
@@ -750,6 +783,52 @@ j:
 """]
 
 
+def phi_sample(fn, run):
+    """export before, run the pass, export after, build the certificate"""
+    from . import c14l_phi
+    ex = new_export(fn)
+    before = c14l_phi.snapshot(fn, ex)
+    nv = len(ex.var)
+    text_before = str(fn)
+    run(fn)
+    ex2 = export_pair(ex, fn)
+    after = c14l_phi.snapshot(fn, ex2)
+    As, Rs, nrep = c14l_phi.certificate(before, after)
+    return {"before": c14l_phi.coq_func(before), "after": c14l_phi.coq_func(after), "As": As, "Rs": Rs, "replaced": nrep, "nv": nv,
+            "changed": before != after, "text_before": text_before, "text_after": str(fn), "ninsts": sum(len(b) for b in before)}
+
+
+PHI_IMPORTS = ("From Coq Require Import NArith.\nFrom Verif Require Import Base.PyInt C14.RangeBase C14.RangeFix C14L.Sem C14L.PhiElim.\n"
+               "Open Scope string_scope.\nOpen Scope Z_scope.\nDefinition bz (b : bool) : Z := if b then 1 else 0.\n")
+
+
+def evaluate_phi(samples, name):
+    if not samples:
+        return []
+    exprs = [f"let f : func := {s['before']} in let g : func := {s['after']} in let As := {s['As']} in let Rs := {s['Rs']} in "
+             "[bz (phi_check f As Rs); bz (func_eqb (phi_apply f Rs) g)]" for s in samples]
+    return coqrun.eval_zlists(PHI_IMPORTS, exprs, name, shard=max(1, (len(exprs) + 7) // 8), timeout=900)
+
+
+def part_phi_model(ctx, model_ok):
+    from vyper.venom.parser import parse_venom
+    samples = []
+    for k, text in enumerate(PHI_TEXTS):
+        fn = list(parse_venom(text).functions.values())[0]
+        samples.append(dict(phi_sample(fn, _run("PhiEliminationPass")), name=f"phi{k}", text=text))
+    bad = 0
+    if model_ok and (COQ / "C14L" / "PhiElim.vo").exists():
+        res = evaluate_phi(samples, "c14l_phifam")
+        for s, r in zip(samples, res):
+            if r != [1, 1]:
+                bad += 1
+                if bad <= 2:
+                    ctx.violation("theorem-broken", "phi_check_sound does not apply: the validator rejects the output of PhiEliminationPass (" + s["name"] + ")",
+                                  {"venom": s["text"], "after": s["text_after"], "verdict [phi_check, output = phi_apply]": r, "certificate": s["As"][:2000], "replaced": s["Rs"]})
+    ctx.corr["phi_elimination_family"] = {"members": len(samples), "phis_replaced": sum(s["replaced"] for s in samples), "rejected": bad}
+    return len(samples)
+
+
 def part_phi_dload(ctx):
     n = 0
     for text in PHI_TEXTS:
@@ -835,7 +914,8 @@ def part_evm(ctx):
 
 
 # ------------------------------------------------------------------ every invocation while the corpus compiles
-PASSES = {"ReduceLiteralsCodesize": "lit", "RevertToAssert": "rta", "AssertCombinerPass": "ac"}
+PASSES = {"ReduceLiteralsCodesize": "lit", "RevertToAssert": "rta", "AssertCombinerPass": "ac", "LowerDloadPass": "dl",
+          "PhiEliminationPass": "phi"}
 
 
 class Observer:
@@ -881,6 +961,9 @@ class Observer:
         if ex.ninsts > self.max_insts:
             self.too_big += 1
             return None
+        if kind == "phi":
+            from . import c14l_phi
+            return ex, {"snap": c14l_phi.snapshot(fn, ex), "nv": len(ex.var), "text_before": str(fn), "ninsts": ex.ninsts, "name": ex.name}
         s = {"before": ex.func(), "nv": None, "text_before": str(fn), "ninsts": ex.ninsts, "name": ex.name}
         s["nv"] = len(ex.var)
         if kind == "ac":
@@ -890,7 +973,20 @@ class Observer:
 
     def after(self, fn, kind, pre):
         ex, s = pre
-        s["after"] = export_pair(ex, fn).func()
+        ex2 = export_pair(ex, fn)
+        if kind == "phi":
+            from . import c14l_phi
+            after = c14l_phi.snapshot(fn, ex2)
+            before = s.pop("snap")
+            if before == after:
+                return                      # nothing replaced: nothing to validate
+            As, Rs, nrep = c14l_phi.certificate(before, after)
+            s.update(before=c14l_phi.coq_func(before), after=c14l_phi.coq_func(after), As=As, Rs=Rs, replaced=nrep, changed=True, text_after=str(fn))
+            key = hashlib.sha256((s["before"] + "|" + s["after"]).encode()).hexdigest()[:16]
+            self.samples[kind].setdefault(key, s)
+            return
+        s["after"] = ex2.func()
+        s["ce"] = ex2.foreign.get("code_end", 1_000_000 + len(ex2.foreign))
         s["changed"] = s["after"] != s["before"]
         s["text_after"] = str(fn)
         key = hashlib.sha256((s["before"] + "|" + s["after"] + "|" + s.get("msgs", "")).encode()).hexdigest()[:16]
@@ -949,7 +1045,7 @@ def part_corpus(ctx, model_ok):
     stats = {"programs": len(progs), "levels": [str(l) for l in levels], "compile_failures": nfail, "too_big_skipped": obs.too_big,
              "invocations": obs.invocations}
     names = {v: k for k, v in PASSES.items()}
-    for kind in ("lit", "rta", "ac"):
+    for kind in ("lit", "rta", "ac", "dl", "phi"):
         allv = sorted(obs.samples[kind].values(), key=lambda s_: (not s_["changed"], -s_["ninsts"], s_["name"]))
         changed = [s_ for s_ in allv if s_["changed"]]
         same = [s_ for s_ in allv if not s_["changed"]]
@@ -958,7 +1054,7 @@ def part_corpus(ctx, model_ok):
         st = {"distinct": len(allv), "changed": len(changed), "checked": len(pick), "accepted": 0, "unsupported": 0, "rejected": 0}
         if model_ok and pick:
             try:
-                res = evaluate(kind, pick, f"c14l_corpus_{kind}")
+                res = evaluate(kind, pick, f"c14l_corpus_{kind}") if kind != "phi" else evaluate_phi(pick, "c14l_corpus_phi")
             except RuntimeError as e:
                 res = None
                 ctx.violation("correspondence-broken", f"the {names[kind]} model could not be evaluated on the exported invocations", {"error": str(e)[-1500:]})
@@ -971,8 +1067,8 @@ def part_corpus(ctx, model_ok):
                     else:
                         st["rejected"] += 1
                         if st["rejected"] <= 2:
-                            thm = {"lit": "lit_pass_correct", "rta": "rta_pass_correct", "ac": "ac_pass (exact model of the pass; value-level theorem only)"}[kind]
-                            ctx.violation("theorem-broken" if kind != "ac" else "correspondence-broken", f"{thm} does not apply: the output of {names[kind]} on a corpus function "
+                            thm = {"lit": "lit_pass_correct", "rta": "rta_pass_correct", "ac": "ac_pass_correct", "dl": "dl_pass (exact model) + lower_dload_sound", "phi": "phi_check_sound"}[kind]
+                            ctx.violation("theorem-broken", f"{thm} does not apply: the output of {names[kind]} on a corpus function "
                                           f"({s_['name']}) is not the model's output", {"theorem": thm, "verdict": r, "function_before": s_["text_before"][:5000],
                                                                                         "function_after": s_["text_after"][:5000]})
                 total += st["accepted"]
@@ -989,7 +1085,7 @@ def part_small_passes(ctx):
     model_ok = all((COQ / f[:-2]).with_suffix(".vo").exists() for f in MODEL_FILES) and not b.get("gen_err")
     nviol = len(ctx.violations)
     total = 0
-    for nm, fn in (("literals", part_lit), ("revert_to_assert", part_rta), ("assert_combiner", part_ac)):
+    for nm, fn in (("literals", part_lit), ("revert_to_assert", part_rta), ("assert_combiner", part_ac), ("lower_dload model", part_dload_model), ("phi_elimination validator", part_phi_model)):
         t0 = time.time()
         k = fn(ctx, model_ok)
         total += k
